@@ -61,6 +61,7 @@ CONFIGS = {
     "latequeue": (2, 2, False, [[add(1), incr(1), add(1, after=1), incr(2), call("wait")]], 4),   # finding F2b (livelock: liveness only)
     "twosucc": (3, 3, False, [[add(1), add(1, after=1), add(1, after=1), incr(1), incr(2), incr(3), call("wait")]], 3),   # finding F2a
     "cols":   (2, 2, False, [[add(1, sd=[("p", 0), ("p", 1), ("a", 0)]), add(1, sd=[("p", 1), ("a", 1)]), incr(1), incr(2), call("wait")]], 2),   # uneven columns on both sides
+    "write2": (1, 1, False, [[add(1), incr(1), call("wait")], [{"op": "write", "n": 2}, call("write")]], 3),   # a line written in two calls
     "fault1": (2, 2, False, [[add(2, fail=2), add(1), incr(2), incr(1), call("wait")]], 3),           # a filler error, no synced decorators
     "fault2": (2, 2, False, [[add(2), add(1, fail=1), incr(1), call("wait")], [call("write")]], 3),
     "faultsync": (3, 3, False, [[add(2, True), add(2, True), add(2, fail=1), call("wait")]], 2),    # finding F5
@@ -172,6 +173,8 @@ def scenario(name, sid, steps=None, mode="replay", seed=1, stats=True):
                 ops.append({"op": "prio", "b": "b%d" % o["b"], "n": o["n"], "flag": o.get("drop", False)})
             elif o["op"] == "write":
                 ops.append({"op": "write", "line": "T|%d|%d" % (len(clients), len(ops))})
+                if o.get("n") == 2:
+                    ops[-1]["chunks"] = True
             elif o["op"] in ("barwait", "get"):
                 ops.append({"op": o["op"], "b": "b%d" % o["b"]})
             else:
@@ -252,9 +255,7 @@ def scenario_to_config(sc):
             elif op in ("getcur", "getcomp", "getab"):
                 q.append({"op": "get1", "b": b})
             elif op in ("write", "wait", "shutdown", "cancel", "refresh"):
-                if o.get("chunks"):
-                    return None   # two Write calls behind one client gate: not in the specification's vocabulary
-                q.append({"op": op})
+                q.append({"op": op, "n": 2} if o.get("chunks") else {"op": op})
             elif op == "delayend":
                 q.append({"op": "nop"})     # the render delay only swaps the writer: no gate is involved
             else:
